@@ -70,9 +70,12 @@ def impl_outcome(call):
     if type(r).__name__ != "Corr":
         return "IRaise", None, "returned %s instead of a Corr" % type(r).__name__
     vals = corr_vals(r)
-    for s in vals:
-        if s is not None and any(not math.isfinite(x) for row in s for x in row):
+    for k, s in enumerate(vals):
+        if s is not None and any(math.isinf(x) for row in s for x in row):
             return "nonfinite", r, ""
+        if s is not None and any(math.isnan(x) for row in s for x in row):
+            # a DEFINED timeslice holding a not-a-number entry: keep it visible (sentinel value), the model says undefined
+            vals[k] = [[(1e300 if math.isnan(x) else x) for x in row] for row in s]
     return "(IOk %s)" % corr_term(vals), r, ""
 
 
